@@ -29,6 +29,26 @@ P = {
          "Trusted: Lean kernel + standard axioms; model + harness; the float constant 2*pi - phase_edge is computed by the harness "
          "with the documented expression and passed to the model exactly; masks are boolean arrays.",
          "Lean 4 proof over hand-written model + differential correspondence with the implementation", "5 C13"),
+ 'C10': (True,
+         'Lean 4 theorems over the executable model of hilberthuang (dense + COO) and hilberthuang_1d (EmdModel/Spectra.lean), for every non-decreasing edge vector, every frequency array (NaN, negative, on-edge, out of range), every amplitude array, both modes, all sizes: digitize characterisation; every sample in exactly one bin iff in range; dense = indicator-sum spec; sparse entries in shape with one per in-range sample; dense = per-cell sums of the sparse entries with equal totals; 1-D = spec; time-marginal of dense = IMF-marginal of 1-D; total = in-range weight; energy = amplitude spectrum of squares. Tied to /repo by an exact (==) correspondence on an exhaustive edge-hitting alphabet x linear/log bins from the real define_hist_bins x modes x dense/sparse/1-D, plus random and malformed streams and a brute-force per-sample histogram instance check.',
+         'Trusted: Lean kernel + propext/Classical.choice/Quot.sound; hand-written model + harness; np.digitize / coo->dense modelled by their index semantics (digitize cross-checked against numpy every run); edges from the real bin constructors (non-decreasing validated); finite amplitudes. Defect D8 repaired in /repo, witness kept in corpus and as theorem hht_below_range_pinned.',
+         "Lean 4 proof over hand-written model + differential correspondence with the implementation", '5 C10'),
+ 'C11': (True,
+         'Lean 4 theorems over the model of holospectrum (digitise, fold d1+d2(L1+1), scatter-add, sum/mean over time, C-order reshape, trim [1:-1,1:-1]): fold/unfold inverse; all entries in shape; full output = joint indicator-sum spec; shapes; time-summed and time-averaged outputs = sum and mean over time of the full output cell by cell; total = weight of samples with both frequencies in range; energy = squares. Correspondence: exhaustive alphabets over small (T,M,K) x independent bin sets x modes x 3 squash_time settings, random larger arrays, malformed shapes and edges; instance check is a quadruple-loop histogram.',
+         'Same trusted base as C10; sparse sum/mean and reshape modelled by index semantics; mean compared within 1e-9 (scipy multiplies by 1/T), everything else exact.',
+         "Lean 4 proof over hand-written model + differential correspondence with the implementation", '5 C11'),
+ 'C14': (True,
+         "Lean 4 theorems (EmdModel/CycleStats.lean) for every reducing function f, every labelling (with -1 gaps) and every value vector: entry k = f of exactly the values labelled k; the projection to samples is constant on cycles and missing elsewhere; phase alignment under scipy's linear-extrapolate interp1d model is exact for quantities affine in phase for any cycle length; every phase bin (the last included) holds the mean / variance / weighted mean of exactly the samples in [e_b, e_b+1). Correspondence: exact on integer/dyadic data with reducers {mean,max,sum,len,first,last,lambda}, gapped labels, out='samples', phase_align with default and explicit cycles, bin_by_phase with 2..64 bins; exhaustive-small plus random streams.",
+         "Trusted: Lean kernel + standard axioms; model + harness; interp1d(linear, extrapolate) and np.digitize are modelled and re-validated against the real libraries on every case; bin centres/edges and default cycles come from the real public functions. Instance-only (partial): interpolation error for non-affine quantities and non-linear interpolation kinds (tolerance from max|g''|); weighted variance / std / sem metrics are outside the property.",
+         "Lean 4 proof over hand-written model + differential correspondence with the implementation", '5 C14'),
+ 'C16': (True,
+         'Lean 4 theorems (EmdModel/Maps.lean) over all selection vectors and all well-formed cycle vectors: subset vector = rank among selected, chain vector = maximal runs of consecutive selected cycles numbered in order; all 12 index maps are total on every existing index; the six round trips contain the origin; forward maps answer none exactly for unlabelled samples / unselected cycles; the six projections place each value on exactly the items that map to it; every output of the C12 cycle-detector model is well-formed. Correspondence: exhaustive over every well-formed label vector of length <= 6/8 x every selection of its cycles and every selection vector of length <= 8/12 x fixed recordings, every function on every index (incl. one past the end), exact comparison; random larger and malformed streams.',
+         'Trusted: Lean kernel + standard axioms; model + harness (np.where lookups modelled as whereEq, v[i] as v[i]? with IndexError); a set-theoretic Python oracle is the instance check. Defects D12a/D12b repaired in /repo.',
+         "Lean 4 proof over hand-written model + differential correspondence with the implementation", '5 C16'),
+ 'C17': (True,
+         "Lean 4 theorems (EmdModel/Kdt.lean) for every query table (D, inds): equal lengths; x indices strictly increasing and < nx; y indices < ny; y indices pairwise distinct (loop invariant: marks are a partial injection rows <-> selected values, proved by induction over columns with no hypothesis on the query); pairs one-to-one; at most one mark per row. Under the validated cKDTree contract WFQuery: each pair lies in the K-neighbour list of its row at a finite distance <= bound; the marker matrix equals its greedy specification. The pinned _unique_inds is proved non-injective on a witness. Correspondence: (x_inds, y_inds) exact against the real kdt_match with the real cKDTree.query table fed to the model: 1-4 features, 1-200 rows, ties/duplicates, K 1..15 and K>ny, three bounds, plus an exhaustive 1-D integer grid; brute-force instance checks of the property's own words.",
+         "Trusted: Lean kernel + standard axioms; model + harness; the KD-tree query is an oracle whose contract (row shape, (inf, ny) padding, sorted distances, distinct neighbours, distances <= bound) is Kdt.wfCheck, proved equivalent to WFQuery and evaluated on every real query result; that the rows really are the K nearest points is scipy's contract (the instance check recomputes it by brute force). Closest-claimant / first-neighbour checks evaluate the anchored mechanism, not the property text: they count as correspondence, never as a property violation. Defects D13, D21 repaired in /repo.",
+         "Lean 4 proof over hand-written model + differential correspondence with the implementation", '5 C17'),
 }
 ALL = ['C%02d' % i for i in range(1, 21)]
 
